@@ -1,0 +1,64 @@
+//! Read-only state projection used by the external verification harness.
+//!
+//! Compiled only with `--cfg minimq_verif`; absent from normal builds.
+
+use core::num::NonZeroU16;
+
+use heapless::Vec;
+
+use super::Session;
+use crate::mqtt_client::outbound::VerifOutbound;
+
+/// Plain copy of the session state that the verification harness compares against its model.
+#[derive(Debug, Clone)]
+pub struct VerifSnapshot {
+    pub next_packet_id: u16,
+    pub generation: u32,
+    pub session_present: bool,
+    pub session_resumed: bool,
+    pub send_quota: u16,
+    pub max_send_quota: u16,
+    pub maximum_packet_size: Option<u32>,
+    pub max_qos: Option<u8>,
+    pub keepalive_ms: u64,
+    pub next_ping_ms: Option<u64>,
+    pub ping_timeout_ms: Option<u64>,
+    pub inbound_qos2: Vec<u16, 8>,
+    pub outbound: VerifOutbound,
+    pub reader_read_bytes: usize,
+    pub reader_packet_length: Option<usize>,
+}
+
+impl Session<'_> {
+    /// Copy out the state the verification harness projects.
+    pub fn verif_snapshot(&self) -> VerifSnapshot {
+        let (reader_read_bytes, reader_packet_length) = self.packet_reader.verif_progress();
+        VerifSnapshot {
+            next_packet_id: self.data.verif_next_packet_id(),
+            generation: self.data.generation(),
+            session_present: self.data.session_present,
+            session_resumed: self.runtime.session_resumed,
+            send_quota: self.runtime.send_quota,
+            max_send_quota: self.runtime.max_send_quota,
+            maximum_packet_size: self.runtime.maximum_packet_size,
+            max_qos: self.runtime.max_qos.map(|qos| qos as u8),
+            keepalive_ms: self.runtime.keepalive_interval.as_millis(),
+            next_ping_ms: self.runtime.next_ping.map(|at| at.as_millis()),
+            ping_timeout_ms: self.runtime.ping_timeout.map(|at| at.as_millis()),
+            inbound_qos2: self.data.pending_server_packet_ids.clone(),
+            outbound: self.data.outbound.verif_snapshot(),
+            reader_read_bytes,
+            reader_packet_length,
+        }
+    }
+
+    /// Move the packet identifier counter (lets a test reach the 16-bit wrap quickly).
+    pub fn verif_set_next_packet_id(&mut self, packet_id: NonZeroU16) {
+        self.data.verif_set_next_packet_id(packet_id);
+    }
+
+    /// Borrow the raw transmit arena.
+    pub fn verif_tx_arena(&self) -> &[u8] {
+        self.data.outbound.verif_arena()
+    }
+}
